@@ -73,6 +73,41 @@ def run(ctx: Ctx):
             prem, conc = tabrun.rand_argument(rng, depth=rng.choice([2, 3, 3]), max_prem=2)
             jobs.append(tabrun.job_for(len(jobs), lg, prem, conc, opts=tabrun.OPTS[rng.randrange(4)], kind='random',
                                        max_steps=1200))
+    # targeted: every truth-functional rule row that fails exactness on the regenerated tables (and is not a committed known
+    # finding) gets propositional arguments built around its node shape; the verdict is compared with the truth table
+    from .c04 import _parse_keyname
+    from pytableaux.lang import Atomic, Operated, Operator
+    A, B, C = Atomic(0, 0), Atomic(1, 0), Atomic(2, 0)
+    N = Operator.Negation
+    opn = {o.name: o for o in Operator}
+    rows = [(r[1], r[2]) for r in (logicobl.report_lines() or []) if r[0] == 'rules_exact']
+    new_rows = [(lg, kn) for lg, kn in rows
+                if ctx.match_known(f'C03:valid-not-tt:{lg}:{kn}') is None and ctx.match_known(f'C03:tt-valid-not-proved:{lg}:{kn}') is None]
+    by_rule = collections.defaultdict(list)
+    for lg, kn in new_rows:
+        by_rule[kn].append(lg)
+    ntarget = 0
+    for kn, lgs in sorted(by_rule.items()):
+        shape, ng, d = _parse_keyname(kn)
+        if shape not in opn or opn[shape] in (Operator.Possibility, Operator.Necessity):
+            continue
+        o = opn[shape]
+        inners = [Operated(o, (A,)), Operated(o, (N(A),))] if o.arity == 1 else \
+                 [Operated(o, (A, B)), Operated(o, (A, N(B))), Operated(o, (N(A), B)), Operated(o, (A, A))]
+        pool2 = [A, B, N(A), N(B), Operated(Operator.Conjunction, (A, B)), Operated(Operator.Disjunction, (A, B)),
+                 Operated(Operator.Disjunction, (N(A), B)), Operated(Operator.Conjunction, (A, N(Operated(Operator.Disjunction, (B, N(B)))))),
+                 Operated(Operator.Conditional, (B, N(A))), C]
+        args = []
+        for inner in inners:
+            S = N(inner) if ng else inner
+            args += [([], S)] + [([p1], S) for p1 in pool2] + [([p1, p2], S) for p1 in pool2[:4] for p2 in pool2[4:]]
+            args += [([S], c) for c in pool2] + [([S, p1], c) for p1 in pool2[:4] for c in pool2]
+            args += [([p1], Operated(Operator.Disjunction, (S, c))) for p1 in pool2[:4] for c in pool2[:4]]
+        for lg in sorted(lgs)[:3]:
+            for prem, conc in args:
+                jobs.append(tabrun.job_for(len(jobs), lg, prem, conc, opts=tabrun.OPTS[0], kind='targeted:' + kn, max_steps=1200))
+                ntarget += 1
+    ctx.add_cov(targeted_jobs=ntarget, targeted_rules=sorted(by_rule))
     outs = tabrun.run_jobs(jobs, order_seed=ctx.seed % 4)
     good = [(j, o) for j, o in zip(jobs, outs) if 'error' not in o]
     for j, o in zip(jobs, outs):
